@@ -3,7 +3,7 @@
 //! loopback (TCP) runner share them. Everything observed goes into shared records step by
 //! step, because a half may never finish (cap) or be dropped in the middle (peer loss).
 
-use crate::case::{Transfer, WriteEnd, MAX_PAUSES};
+use crate::case::{Dialog, StreamCase, Transfer, WriteEnd, MAX_PAUSES};
 use std::sync::{Arc, Mutex};
 use tokio::io::{AsyncRead, AsyncReadExt, AsyncWrite, AsyncWriteExt};
 
@@ -102,49 +102,63 @@ async fn pause(us: u32) {
     }
 }
 
-/// Writes the whole payload in the generated chunking, then shuts down or drops.
-/// Returns the half when it has to stay alive (after an explicit shutdown).
-pub async fn run_writer<W>(
-    mut w: W,
+/// position of a writing half inside its script
+#[derive(Clone, Copy, Debug, Default)]
+pub struct WriterPos {
+    pub off: u64,
+    writes: usize,
+    pauses: u64,
+}
+
+fn finish_write(rec: &Arc<Mutex<WriteRec>>, env: &Env) {
+    let mut r = rec.lock().unwrap();
+    r.finished_at = Some((env.now_us)());
+    r.pending_since = None;
+    drop(r);
+    env.notify.notify_one();
+}
+
+/// Writes the wire bytes `pos.off..until` in the generated chunking. `false`: the half failed
+/// (the record is closed, the caller drops the half).
+pub async fn write_part<W>(
+    w: &mut W,
     t: &Transfer,
     p: Payload,
-    rec: Arc<Mutex<WriteRec>>,
+    rec: &Arc<Mutex<WriteRec>>,
     env: &Env,
-) -> Option<W>
+    pos: &mut WriterPos,
+    until: u64,
+) -> bool
 where
     W: AsyncWrite + Unpin,
 {
     let now = env.now_us;
-    rec.lock().unwrap().started_at = Some(now());
-    let total = p.wire_len();
-    let mut off = 0u64;
-    let mut i = 0usize;
-    let mut pauses = 0u64;
+    {
+        let mut g = rec.lock().unwrap();
+        if g.started_at.is_none() {
+            g.started_at = Some(now());
+        }
+    }
+    let until = until.min(p.wire_len());
     let mut buf: Vec<u8> = vec![];
-    let finish = |rec: &Arc<Mutex<WriteRec>>| {
-        let mut r = rec.lock().unwrap();
-        r.finished_at = Some(now());
-        r.pending_since = None;
-        drop(r);
-        env.notify.notify_one();
-    };
-    while off < total {
+    while pos.off < until {
+        let i = pos.writes;
         if t.write_pause_every > 0
             && i > 0
             && i % t.write_pause_every as usize == 0
-            && pauses < MAX_PAUSES
+            && pos.pauses < MAX_PAUSES
         {
-            pauses += 1;
+            pos.pauses += 1;
             pause(t.write_pause_us).await;
         }
         let chunk = t.chunks[i % t.chunks.len()].max(1) as u64;
-        let n = chunk.min(total - off) as usize;
+        let n = chunk.min(until - pos.off) as usize;
         buf.resize(n, 0);
-        p.fill(off, &mut buf);
+        p.fill(pos.off, &mut buf);
         let start = now();
         {
             let mut r = rec.lock().unwrap();
-            r.attempt_end = off + n as u64;
+            r.attempt_end = pos.off + n as u64;
             r.pending_since = Some(start);
         }
         let res = w.write(&buf).await;
@@ -159,22 +173,32 @@ where
             Ok(0) => {
                 r.zero_write = true;
                 drop(r);
-                finish(&rec);
-                return None;
+                finish_write(rec, env);
+                return false;
             }
             Ok(k) => {
-                off += k as u64;
-                r.accepted = off;
+                pos.off += k as u64;
+                r.accepted = pos.off;
             }
             Err(e) => {
                 r.err = Some(ErrInfo::new(&e, end));
                 drop(r);
-                finish(&rec);
-                return None;
+                finish_write(rec, env);
+                return false;
             }
         }
-        i += 1;
+        pos.writes += 1;
     }
+    true
+}
+
+/// After the last byte: the generated pause, then shutdown or drop.
+/// Returns the half when it has to stay alive (after an explicit shutdown).
+pub async fn end_writer<W>(mut w: W, t: &Transfer, rec: &Arc<Mutex<WriteRec>>, env: &Env) -> Option<W>
+where
+    W: AsyncWrite + Unpin,
+{
+    let now = env.now_us;
     rec.lock().unwrap().all_written_at = Some(now());
     pause(t.end_pause_us).await;
     match t.end {
@@ -200,28 +224,64 @@ where
                 }
             }
             drop(r);
-            finish(&rec);
+            finish_write(rec, env);
             Some(w)
         }
         WriteEnd::Drop => {
             rec.lock().unwrap().end_started_at = Some(now());
             drop(w);
-            finish(&rec);
+            finish_write(rec, env);
             None
         }
     }
 }
 
-/// Reads with the generated buffer sizes until EOF, an error, a wrong byte or the generated
-/// early drop. `off` is the wire offset the half starts at (1 after the header was consumed).
-pub async fn run_reader<R>(
-    mut r: R,
+/// Writes the whole payload in the generated chunking, then shuts down or drops.
+/// Returns the half when it has to stay alive (after an explicit shutdown).
+pub async fn run_writer<W>(
+    mut w: W,
     t: &Transfer,
     p: Payload,
-    mut off: u64,
-    rec: Arc<Mutex<ReadRec>>,
+    rec: Arc<Mutex<WriteRec>>,
     env: &Env,
-) where
+) -> Option<W>
+where
+    W: AsyncWrite + Unpin,
+{
+    let mut pos = WriterPos::default();
+    if !write_part(&mut w, t, p, &rec, env, &mut pos, p.wire_len()).await {
+        return None;
+    }
+    end_writer(w, t, &rec, env).await
+}
+
+/// position of a reading half inside its script
+#[derive(Clone, Copy, Debug, Default)]
+pub struct ReaderPos {
+    pub off: u64,
+    reads: usize,
+    pauses: u64,
+}
+
+impl ReaderPos {
+    pub fn at(off: u64) -> Self {
+        ReaderPos { off, ..Default::default() }
+    }
+}
+
+/// Reads with the generated buffer sizes until the wire offset `until` (exactly, never
+/// beyond), or - `None` - until the end of the stream. `false`: the half ended (EOF, error,
+/// wrong byte, generated early drop); the caller passes it to `end_reader`.
+pub async fn read_part<R>(
+    r: &mut R,
+    t: &Transfer,
+    p: Payload,
+    rec: &Arc<Mutex<ReadRec>>,
+    env: &Env,
+    pos: &mut ReaderPos,
+    until: Option<u64>,
+) -> bool
+where
     R: AsyncRead + Unpin,
 {
     let now = env.now_us;
@@ -233,24 +293,31 @@ pub async fn run_reader<R>(
     }
     let hdr = p.hdr.is_some() as u64;
     let mut buf = vec![0u8; t.read_bufs.iter().copied().max().unwrap_or(1).max(1) as usize];
-    let mut i = 0usize;
-    let mut pauses = 0u64;
     loop {
         if let Some(k) = t.read_drop_at {
-            if off >= k as u64 + hdr {
+            if pos.off >= k as u64 + hdr {
                 rec.lock().unwrap().dropped_early = true;
-                break;
+                return false;
             }
         }
+        if let Some(u) = until {
+            if pos.off >= u {
+                return true;
+            }
+        }
+        let i = pos.reads;
         if t.read_pause_every > 0
             && i > 0
             && i % t.read_pause_every as usize == 0
-            && pauses < MAX_PAUSES
+            && pos.pauses < MAX_PAUSES
         {
-            pauses += 1;
+            pos.pauses += 1;
             pause(t.read_pause_us).await;
         }
-        let cap = t.read_bufs[i % t.read_bufs.len()].max(1) as usize;
+        let mut cap = t.read_bufs[i % t.read_bufs.len()].max(1) as usize;
+        if let Some(u) = until {
+            cap = cap.min((u - pos.off) as usize);
+        }
         let start = now();
         rec.lock().unwrap().pending_since = Some(start);
         let res = r.read(&mut buf[..cap]).await;
@@ -265,34 +332,142 @@ pub async fn run_reader<R>(
             Ok(0) => {
                 g.first_ok_at.get_or_insert(end);
                 g.eof_at = Some(end);
-                break;
+                return false;
             }
             Ok(n) => {
                 g.first_ok_at.get_or_insert(end);
                 for (j, b) in buf[..n].iter().enumerate() {
-                    let want = p.byte(off + j as u64);
+                    let want = p.byte(pos.off + j as u64);
                     if *b != want {
-                        g.mismatch = Some((off + j as u64, *b, want));
+                        g.mismatch = Some((pos.off + j as u64, *b, want));
                         break;
                     }
                 }
-                off += n as u64;
-                g.bytes = off;
+                pos.off += n as u64;
+                g.bytes = pos.off;
                 if g.mismatch.is_some() {
-                    break;
+                    return false;
                 }
             }
             Err(e) => {
                 g.err = Some(ErrInfo::new(&e, end));
-                break;
+                return false;
             }
         }
-        i += 1;
+        pos.reads += 1;
     }
+}
+
+/// drops the reading half and closes its record
+pub fn end_reader<R>(r: R, rec: &Arc<Mutex<ReadRec>>, env: &Env) {
     drop(r);
     let mut g = rec.lock().unwrap();
-    g.finished_at = Some(now());
+    g.finished_at = Some((env.now_us)());
     g.pending_since = None;
     drop(g);
     env.notify.notify_one();
+}
+
+/// Reads with the generated buffer sizes until EOF, an error, a wrong byte or the generated
+/// early drop. `off` is the wire offset the half starts at (1 after the header was consumed).
+pub async fn run_reader<R>(mut r: R, t: &Transfer, p: Payload, off: u64, rec: Arc<Mutex<ReadRec>>, env: &Env)
+where
+    R: AsyncRead + Unpin,
+{
+    let mut pos = ReaderPos::at(off);
+    let reached = read_part(&mut r, t, p, &rec, env, &mut pos, None).await;
+    debug_assert!(!reached);
+    end_reader(r, &rec, env);
+}
+
+// ---------------------------------------------------------------------------------------
+// dialogue on an open stream (see `case::Dialog`)
+
+/// wire offset at which the first part of the request ends
+pub fn dialog_first_end(sc: &StreamCase, d: &Dialog) -> u64 {
+    1 + d.first.min(sc.req.len) as u64
+}
+
+/// client: first part of the request (not finished) - the whole response - rest of the
+/// request, finish - end of the response
+#[allow(clippy::too_many_arguments)]
+pub async fn client_dialog<R, W>(
+    r: R,
+    w: W,
+    sc: &StreamCase,
+    d: &Dialog,
+    req: Payload,
+    resp: Payload,
+    cw: Arc<Mutex<WriteRec>>,
+    cr: Arc<Mutex<ReadRec>>,
+    env: &Env,
+) where
+    R: AsyncRead + Unpin,
+    W: AsyncWrite + Unpin,
+{
+    let first_end = dialog_first_end(sc, d);
+    let mut wpos = WriterPos::default();
+    let mut rpos = ReaderPos::at(0);
+    let mut w = Some(w);
+    let mut r = Some(r);
+    if !write_part(w.as_mut().unwrap(), &sc.req, req, &cw, env, &mut wpos, first_end).await {
+        w = None;
+    }
+    if !read_part(r.as_mut().unwrap(), &sc.resp, resp, &cr, env, &mut rpos, Some(resp.wire_len())).await {
+        end_reader(r.take().unwrap(), &cr, env);
+    }
+    let mut kept = None;
+    if let Some(mut w) = w {
+        if write_part(&mut w, &sc.req, req, &cw, env, &mut wpos, req.wire_len()).await {
+            kept = end_writer(w, &sc.req, &cw, env).await;
+        }
+    }
+    if let Some(mut r) = r {
+        let reached = read_part(&mut r, &sc.resp, resp, &cr, env, &mut rpos, None).await;
+        debug_assert!(!reached);
+        end_reader(r, &cr, env);
+    }
+    drop(kept);
+}
+
+/// server (the header byte is consumed): exactly the first part of the request - the whole
+/// response, end of the writing half - the rest of the request
+#[allow(clippy::too_many_arguments)]
+pub async fn server_dialog<R, W>(
+    mut r: R,
+    w: W,
+    sc: &StreamCase,
+    d: &Dialog,
+    req: Payload,
+    resp: Payload,
+    sr: Arc<Mutex<ReadRec>>,
+    sw: Arc<Mutex<WriteRec>>,
+    env: &Env,
+) where
+    R: AsyncRead + Unpin,
+    W: AsyncWrite + Unpin,
+{
+    let first_end = dialog_first_end(sc, d);
+    let mut rpos = ReaderPos::at(1);
+    let reached = read_part(&mut r, &sc.req, req, &sr, env, &mut rpos, Some(first_end)).await;
+    let mut r = Some(r);
+    let respond = if reached {
+        true
+    } else {
+        // like the sequential server: a request that ended early and cleanly is answered
+        end_reader(r.take().unwrap(), &sr, env);
+        sr.lock().unwrap().eof_at.is_some()
+    };
+    let kept = if respond {
+        run_writer(w, &sc.resp, resp, sw, env).await
+    } else {
+        drop(w);
+        None
+    };
+    if let Some(mut r) = r {
+        let reached = read_part(&mut r, &sc.req, req, &sr, env, &mut rpos, None).await;
+        debug_assert!(!reached);
+        end_reader(r, &sr, env);
+    }
+    drop(kept);
 }
